@@ -83,9 +83,10 @@ def mutated_documents(draw, spec, req, max_mutations=2, force=False):
 def payload_for(draw, spec, tree, op=None):
     """natural JSON variable values for the variable definitions of the operations in `tree`"""
     out = {}
-    for d in tree["definitions"]:
-        if d["__kind__"] != "OperationDefinition":
-            continue
+    ops = [d for d in tree["definitions"] if d["__kind__"] == "OperationDefinition"]
+    if op is not None:
+        ops = ops[op:op + 1]     # variables are scoped per operation: the same name may have another type elsewhere
+    for d in ops:
         for vd in d["variable_definitions"]:
             name = vd["variable"]["name"]["value"]
             t = RV.type_of_tree(vd["type"])
